@@ -129,7 +129,8 @@ def axiom_instances(ab: Abstraction, families=("basic", "mono", "bounds"), max_t
         if mono:
             out.append(tm.implies(tm.lt(u1, u2), tm.lt(e1, e2)))
             out.append(tm.implies(tm.lt(u2, u1), tm.lt(e2, e1)))
-    syntactic = len(E) > 8
+    syntactic = len(E) > 12
+    xm = {}
     for i, (ei, (ui,), _) in enumerate(E):
         for j, (ej, (uj,), _) in enumerate(E):
             if j == i:
@@ -139,8 +140,13 @@ def axiom_instances(ab: Abstraction, families=("basic", "mono", "bounds"), max_t
                     continue
                 ek, (uk,), _ = E[k]
                 cond = tm.eq(ui, tm.add(uj, uk))
-                if cond is tm.FALSE or (syntactic and cond is not tm.TRUE):
+                if cond is tm.FALSE:
                     continue
+                if syntactic and cond is not tm.TRUE:
+                    # recognise the identity after polynomial expansion (a*(x+c) = a*x + a*c)
+                    if tm.expand(tm.sub(ui, tm.add(uj, uk)), xm) is not tm.ZERO:
+                        continue
+                    cond = tm.TRUE
                 out.append(tm.implies(cond, tm.eq(ei, tm.mul(ej, ek))))
 
     # ---- log (facts conditional on positivity of the argument)
